@@ -6,6 +6,7 @@ import Req.C03.H2Pool
 import Req.C03.H3Cut
 import Req.C03.GzipCut
 import Req.C03.EncCut
+import Req.C03.H2Multi
 /-! Driver lanes of C03.
 
 `c03cut <G|H> <eof|hold> <hex stream> <k>`: the peer sends the first `k` bytes of the stream in
@@ -242,7 +243,40 @@ def laneH1z : List String → String
     | _, _, _ => "bad-op"
   | _ => "bad-op"
 
+/-! ### HTTP/2, concurrent streams -/
+
+def decodeH2MEv (s : String) : Option H2MEv :=
+  match s.splitOn "@" with
+  | ["C", e] => (decodeH2XEv e).map .conn
+  | [id, e] => do
+    let id ← id.toNat?
+    let e ← decodeH2XEv e
+    pure (.frame id e)
+  | _ => none
+
+def renderH2Plain : H2Outcome → String
+  | .pending => "pending"
+  | .callFailed true => "retry"
+  | .callFailed false => "fail"
+  | .ok st body => "ok status=" ++ toString st ++ " body=" ++ encodeHex body
+  | .bodyFailed _ _ _ => "fail"
+  | .bodyBlocked _ _ => "blocked"
+
+/-- `c03h2m <id a> <id b> <events>`: two concurrent streams on one connection; `events` =
+`<id>@<event>` (a frame of that stream) / `C@<event>` (GOAWAY, connection lost) joined by `|`.
+Answer: what the two callers observe and the dials after a follow-up request. -/
+def laneH2m : List String → String
+  | [a, b, evs] =>
+    match a.toNat?, b.toNat?, (if evs == "none" then some [] else (evs.splitOn "|").mapM decodeH2MEv) with
+    | some a, some b, some evs =>
+      let m := H2M.init.run evs
+      "a=" ++ renderH2Plain ((m a).outcome 512) ++ " b=" ++ renderH2Plain ((m b).outcome 512) ++
+        " dials=" ++ toString (h2mDialsAfterNext m [a, b])
+    | _, _, _ => "bad-op"
+  | _ => "bad-op"
+
 def lanes : List (String × (List String → String)) := [
+  ("c03h2m", laneH2m),
   ("c03h2z", laneH2z),
   ("c03h3z", laneH3z),
   ("c03h1z", laneH1z),
